@@ -262,7 +262,13 @@ func (c *client) inFlightUp() error {
 	c.inFlightM.Lock()
 	c.inFlight++
 	// we expect that at least the last request can be completed within readTimeout
-	if err := c.conn.SetReadDeadline(time.Now().Add(c.readTimeout)); err != nil {
+	deadline := time.Now().Add(c.readTimeout)
+	if c.inFlight == 0 {
+		// the response to this request has already been received (and
+		// inFlight has wrapped around), so we are not waiting for anything
+		deadline = time.Time{}
+	}
+	if err := c.conn.SetReadDeadline(deadline); err != nil {
 		c.inFlightM.Unlock()
 		return err
 	}
